@@ -364,7 +364,8 @@ def pairedCoreF {α} (ra : RA α) (f s0 : List Int) : Except Err (Res α) :=
 def pairedF {α} (ra : RA α) (r c : Part) : Except Err (Res α) :=
   pairedCoreF ra (idxArr r).1 (idxArr c).1
 
-/-- `_array` after the repair: `reshape((len(lengths), L) + cell shape)` on the fast path -/
+/-- `_array` after the repair: `reshape((len(lengths), L) + cell shape)` on the fast path, otherwise
+`_row_views(data, lengths)` = one view per row of `partition_list` (a 1-d object array; same rows) -/
 def arrayViewF {α} (ra : RA α) (fast : Bool) : Except Err (List (List α)) :=
   if fast then
     match ra.lengths with
